@@ -128,11 +128,21 @@ pub(crate) fn h_c12_unevaluated_never_error() {
     vrt_check(check_limits_valid((dl, du), calc), "C12 FORM / general RAT_FUNC never cause a limit error");
 }
 
-/// tolerant comparison: limits inside the range are valid; limits clearly outside (10x the documented tolerance) are not
+/// tolerant comparison for an arbitrary calculated range: inside (or within half the documented 1e-6 relative
+/// tolerance) => valid; clearly outside (10x the tolerance) => limit error; each side judged by its own end of the range
 pub(crate) fn h_c12_limits_valid() {
-    let k = vrt_choice(11);
-    let side = vrt_choice(3);
-    let (cl, cu) = ref_raw_limits(k);
+    let side = vrt_choice(4);
+    // calculated range: the 11 raw ranges plus ranges whose two ends differ strongly in magnitude (each end has its own tolerance)
+    let r = vrt_choice(17);
+    let (cl, cu) = match r {
+        11 => (-4.294967295e12, 0.0),
+        12 => (0.0, 1.0),
+        13 => (-1e-3, 5e9),
+        14 => (-65535000.0, 0.0),
+        15 => (1.0, 2.0),
+        16 => (-7.5, 1e15),
+        k => ref_raw_limits(k),
+    };
     let el = vrt_any_f64();
     let eu = vrt_any_f64();
     vrt_assume(el.is_finite() & eu.is_finite());
@@ -141,6 +151,11 @@ pub(crate) fn h_c12_limits_valid() {
         vrt_assume((cl <= el) & (eu <= cu));
         vrt_check(valid, "C12 declared limits inside the range are valid");
     } else if side == 1 {
+        // within half the documented tolerance of each end
+        vrt_assume((cl - el <= cl.abs() * 0.5e-6) & (eu - cu <= cu.abs() * 0.5e-6));
+        vrt_cover(eu > cu, "upper limit slightly above the range");
+        vrt_check(valid, "C12 declared limits within the documented relative tolerance are valid");
+    } else if side == 2 {
         vrt_assume(el < cl - cl.abs() * 1e-5 - 1e-9);
         vrt_check(!valid, "C12 lower limit clearly below the range is a limit error");
     } else {
